@@ -356,7 +356,7 @@ func TestC15(t *testing.T) {
 		n = 1000000
 	}
 	n /= nsh
-	pool := append(append([]string{}, c15Alpha...), "日", "x", "ab", "$a", "${b}", "$(c)", "`c`", "$((1))", "~/", "*/", "[a-b]", `\n`, "''", `""`)
+	pool := append(append([]string{}, c15Alpha...), "\uFFFD", "\r", "\u00a0", "e\u0301", "\U0001F600", "\u0080", "\f", "日", "x", "ab", "$a", "${b}", "$(c)", "`c`", "$((1))", "~/", "*/", "[a-b]", `\n`, "''", `""`)
 	prop := func(rt *rapid.T) {
 		s := strings.Join(rapid.SliceOfN(rapid.SampledFrom(pool), 0, 12).Draw(rt, "s"), "")
 		how := rapid.SampledFrom([]string{"single", "double", "backslash", "mixed"}).Draw(rt, "quote")
